@@ -191,21 +191,24 @@ DecodeMovie(img) ==
    version / offset words that steer the parser -- every box size field (and 64-bit size), and
    the first words of every leaf payload (version+flags, entry counts, sample counts, sizes).
    Used to generate structure-aware adversarial inputs (C06-C08): <<offset, width>> pairs. *)
-\* <<offset, width, role, box>>: role 0 = a box size field, 1 = the first payload word of a leaf
+\* <<offset, width, role, box, group>>: role 0 = a box size field, 1 = the first payload word of a leaf
 \* (version + flags of a full box), 2 = another payload word, 3 = a 64-bit window; box = offset of the
-\* box the field belongs to (fields of one box are mutated together)
-RECURSIVE NodeFields(_, _)
-NodeFields(b, k) ==
-  LET own == {<<k.o, 4, 0, k.o>>} \cup (IF k.h = 16 THEN {<<k.o + 8, 8, 0, k.o>>} ELSE {})
+\* box the field belongs to (fields of one box are mutated together); group = offset of the enclosing
+\* sample table box / track fragment box, else of the box itself (tables that refer to each other)
+RECURSIVE NodeFields(_, _, _)
+NodeFields(b, k, g0) ==
+  LET g == IF g0 >= 0 THEN g0 ELSE IF k.t \in {STBL, TRAF} THEN k.o ELSE -1
+      gg == IF g >= 0 THEN g ELSE k.o
+      own == {<<k.o, 4, 0, k.o, gg>>} \cup (IF k.h = 16 THEN {<<k.o + 8, 8, 0, k.o, gg>>} ELSE {})
       p == PrefixOf(k.t) IN
   IF p >= 0 /\ k.s - k.h >= p
   THEN LET ks == Kids(b, PayloadLo(k) + p, PayloadHi(k)) IN
-       own \cup {<<PayloadLo(k) + 4 * w, 4, 2, k.o>> : w \in 0..((IF p > 8 THEN 8 ELSE p) \div 4 - 1)}
-           \cup UNION {NodeFields(b, ks.kids[i]) : i \in 1..Len(ks.kids)}
-  ELSE own \cup {<<PayloadLo(k) + 4 * w, 4, IF w = 0 THEN 1 ELSE 2, k.o>> : w \in 0..((IF k.s - k.h > 24 THEN 24 ELSE k.s - k.h) \div 4 - 1)}
+       own \cup {<<PayloadLo(k) + 4 * w, 4, 2, k.o, gg>> : w \in 0..((IF p > 8 THEN 8 ELSE p) \div 4 - 1)}
+           \cup UNION {NodeFields(b, ks.kids[i], g) : i \in 1..Len(ks.kids)}
+  ELSE own \cup {<<PayloadLo(k) + 4 * w, 4, IF w = 0 THEN 1 ELSE 2, k.o, gg>> : w \in 0..((IF k.s - k.h > 24 THEN 24 ELSE k.s - k.h) \div 4 - 1)}
            \* 64-bit quantities (co64 entries, version-1 times, base data offsets) at every word position
-           \cup {<<PayloadLo(k) + 4 * w, 8, 3, k.o>> : w \in 0..((IF k.s - k.h > 24 THEN 24 ELSE k.s - k.h) \div 4 - 2)}
+           \cup {<<PayloadLo(k) + 4 * w, 8, 3, k.o, gg>> : w \in 0..((IF k.s - k.h > 24 THEN 24 ELSE k.s - k.h) \div 4 - 2)}
 FieldMapOf(bytes) ==
   LET ks == Kids(bytes, 0, Len(bytes)) IN
-  UNION {IF ks.kids[i].t = MDAT THEN {<<ks.kids[i].o, 4, 0, ks.kids[i].o>>} ELSE NodeFields(bytes, ks.kids[i]) : i \in 1..Len(ks.kids)}
+  UNION {IF ks.kids[i].t = MDAT THEN {<<ks.kids[i].o, 4, 0, ks.kids[i].o, ks.kids[i].o>>} ELSE NodeFields(bytes, ks.kids[i], -1) : i \in 1..Len(ks.kids)}
 =============================================================================
